@@ -202,7 +202,7 @@ inline void run_keyblock(long &kc) {
 		SelfSigOpt o; o.hashalgo = c.hash; o.sigtime = K->ctime + 100; o.keyexp = 86400 * 3650;
 		if (v == "selfsig-older-than-key") o.sigtime = K->ctime - 5;
 		if (v == "selfsig-in-future") o.sigtime = NOW0 + 86400 * 10;
-		int bh = (v == "weak-binding") ? 2 : 8;
+		int bh = (v == "weak-binding") ? 2 : (strong_hash(c.hash) && c.hash != 12 && c.hash != 14) ? c.hash : 8;
 		time_t bt = K->ctime + 200; if (v == "binding-older-than-subkey") bt = S->ctime - 5;
 		std::string e1, e2;
 		if (!spec_hash_fits(c.prim, o.hashalgo) || !make_selfsig(*K, uid, o, selfsig, &e1) || !make_binding(*K, *S, bh, bt, 0x0C, bind, &e2)) {
@@ -225,7 +225,10 @@ inline void run_keyblock(long &kc) {
 					g_cur_region = reg; g_cur_pos = (long)p;
 					bool prim_judged = (pre == "key" && keybody_region(reg)) || (pre == "uid" && suf == "body") || (pre == "uidsig" && (suf == "hashed" || suf == "mpi_val"));
 					bool sub_judged = (pre == "sub" && keybody_region(reg)) || (pre == "bindsig" && (suf == "hashed" || suf == "mpi_val"));
-					for (unsigned m : mk) {
+					std::vector<unsigned> mk2(mk);
+					{ const Region *rg = L.region_at(p);
+					  if (rg && rg->off == p && suf == "mpi_val") for (unsigned v : {0x00u, 0x02u, 0x03u, 0x04u, 0x40u, 0x41u, 0xFFu}) { unsigned m = blk[p] ^ v; if (m && std::find(mk2.begin(), mk2.end(), m) == mk2.end()) mk2.push_back(m); } }
+					for (unsigned m : mk2) {
 						t[p] = blk[p] ^ m; g_cur_mask = m;
 						BlockSem B = check_block(t); st.evals++; count("flip/keyblock/" + reg);
 						bool bad = false; std::string why;
